@@ -283,6 +283,15 @@ func (f *File) Imports() string {
 	return ""
 }
 
+// RemainingSourceComment renders the left-over code as a comment. A block comment cannot
+// contain "*/", so source that does is kept in line comments instead.
+func (f *File) RemainingSourceComment() string {
+	if strings.Contains(f.RemainingSource, "*/") {
+		return "// " + strings.ReplaceAll(f.RemainingSource, "\n", "\n// ")
+	}
+	return "/*\n\t" + f.RemainingSource + "\n\t*/"
+}
+
 type Resolver struct {
 	Object               *codegen.Object
 	Field                *codegen.Field
